@@ -390,6 +390,69 @@ func c11CheckSubsets(c c11SubsetCase) engine.Result {
 	return res
 }
 
+// ---- scenario "back-to-back" ---------------------------------------------------------------------------------
+
+type c11B2BCase struct {
+	StreamID int `json:"stream_id"`
+}
+
+// A buffer that holds more than the first PES packet: the packet's PES_packet_length is consistent with ITS end,
+// and the buffer goes on - with another PES packet, with a bare start code, with a start code one byte later.
+// "Returns as data exactly the bytes that follow the header": everything up to the end of the buffer.
+func c11CheckB2B(c c11B2BCase) engine.Result {
+	var res engine.Result
+	id := byte(c.StreamID)
+	class := c11Class(id)
+	var w, w2 ref.BitWriter
+	next := ref.PES{StreamID: 0xC0, PTSDTS: 2, PTS: 0x1ABCDEF01, Payload: c11Private, PacketLength: -1}
+	c11SetFlags6(&next, 0x04)
+	c11ApplyOpt(&next, 0)
+	w2.Reset()
+	next.AppendTo(&w2)
+	followers := [][]byte{append([]byte{}, w2.Out()...), {0x00, 0x00, 0x01}, {0x00, 0x00, 0x01, 0xE0}, {0x5A, 0x00, 0x00, 0x01, 0xBD, 0x00}}
+	long := make([]byte, 300)
+	for i := range long {
+		long[i] = byte(0x61 + i%23)
+	}
+	engine.Guard(&res, "NewPESHeader", func() {
+		p := ref.PES{StreamID: id}
+		c11SetFlags6(&p, 0x04)
+		for _, flags := range [...]byte{0, 2, 3} {
+			p.PTSDTS = flags
+			p.PTS, p.DTS = c11TSPairs[2][0], c11TSPairs[2][1]
+			for _, opt := range [...]int{0, 1} {
+				c11ApplyOpt(&p, opt)
+				for _, st := range [...]int{0, 2} {
+					p.Stuffing = st
+					for _, pl := range [...]int{0, 1, 3, 5, 200, 300} {
+						p.Payload = long[:pl]
+						p.PacketLength = -1 // consistent with the end of THIS packet
+						w.Reset()
+						_, dataAt := p.AppendTo(&w)
+						first := append([]byte{}, w.Out()...)
+						for _, f := range followers {
+							in := append(append([]byte{}, first...), f...)
+							res.Nontrivial++
+							switch class {
+							case c11Optional:
+								c11Judge(&res, in, class, id, &p, dataAt)
+							default:
+								c11Judge(&res, in, class, id, &p, 6)
+							}
+							if len(res.Fail) > 8 {
+								return
+							}
+						}
+					}
+				}
+			}
+		}
+	})
+	res.Trans += res.Evals
+	res.Outcome(class)
+	return res
+}
+
 // ---- scenario "large-buffers" ----------------------------------------------------------------------
 
 type c11BigCase struct {
@@ -551,7 +614,7 @@ func c11CheckPackets(c c11PktCase) engine.Result {
 	}
 	engine.Guard(&res, "packet-level", func() {
 		for _, L := range c11PayloadLens(c.Thorough) {
-			for afVariant := 0; afVariant < 2; afVariant++ {
+			for afVariant := 0; afVariant < 4; afVariant++ {
 				// how the payload length comes about
 				var af *ref.AF
 				afLen := 183 - L
@@ -565,8 +628,14 @@ func c11CheckPackets(c c11PktCase) engine.Result {
 					// adaptation_field_control says "payload" but no byte is left for it
 				case L <= 176 && afVariant == 1:
 					af = &ref.AF{RAI: true, PCR: ref.PCRBytes(0x0102030405)}
+				case L <= 180 && afVariant == 2:
+					// an adaptation field whose content is an extension of one byte (flags byte with the reserved bits set)
+					af = &ref.AF{Ext: []byte{0x1F}}
+				case L <= 172 && afVariant == 3:
+					// PCR, private data and an extension that fill the field up to one stuffing byte
+					af = &ref.AF{PCR: ref.PCRBytes(0x0102030405), Private: filler[:afLen-11], Ext: []byte{0x1F}}
 				}
-				if afVariant == 1 && af == nil && L != 0 {
+				if afVariant >= 1 && af == nil && (L != 0 || afVariant > 1) {
 					continue
 				}
 				for _, pusi := range [...]bool{true, false} {
@@ -709,6 +778,16 @@ func init() {
 				},
 				Check: c11CheckSubsets, Batch: 4,
 			},
+			&engine.Enum[c11B2BCase]{
+				Name: "back-to-back",
+				Rule: "case = stream_id (all 256); a PES packet whose PES_packet_length is consistent with its own end (PTS_DTS_flags {00,10,11} x optional fields {none, all} x stuffing {0,2} x payload {0,1,3,5,200,300} bytes) followed in the same buffer by another complete PES packet / a bare start code 00 00 01 / 00 00 01 E0 / a start code one byte later: the data is everything that follows the header up to the end of the buffer; all observables as in header-shapes",
+				Gen: func(r *engine.Run, emit func(c11B2BCase)) {
+					for id := 0; id < 256; id++ {
+						emit(c11B2BCase{id})
+					}
+				},
+				Check: c11CheckB2B, Batch: 4,
+			},
 			&engine.Enum[c11TSCase]{
 				Name: "timestamps",
 				Rule: "case = one 33-bit value from {<=2 bits set, complements, alternating patterns} plus every 2^21-th value (thorough 2^17-th); 10 stream ids x {PTS=v; PTS=v DTS=~v; PTS=~v DTS=v; PTS=DTS=v; DTS=v-3003} x stuffing {0,3} x alignment; all observables as in header-shapes; non-trivial = each header",
@@ -742,7 +821,7 @@ func init() {
 			},
 			&engine.Enum[c11PktCase]{
 				Name: "packets",
-				Rule: "case = stream_id (all 256); Check builds transport packets: payload length {0 (adaptation field only / payload flag with no room),1..11,14,19,20,176,183,184} (thorough 0..40,100,176,182,183,184) obtained by adaptation-field stuffing or an adaptation field with PCR x PUSI {1,0} x first payload bytes {00 00 01, 00 00 02, 00 01 01, 01 00 01, 00 00 00, 00 00 81} x 12 header shapes (alignment, PTS_DTS_flags, stuffing) x 3 transport headers (PID 0x100 / 0x1FFF with TEI, priority, scrambling / 0); packet.PESHeader succeeds with exactly the payload iff PUSI and >= 4 payload bytes starting 00 00 01; pes.AlignedPUSI never matches otherwise, and for ids with optional header and a header complete in the packet matches iff data_alignment_indicator, returning the bytes after the header (ids without optional header: whether it matches is not judged, but a reported match must return the bytes after PES_packet_length); non-trivial = each packet",
+				Rule: "case = stream_id (all 256); Check builds transport packets: payload length {0 (adaptation field only / payload flag with no room),1..11,14,19,20,176,183,184} (thorough 0..40,100,176,182,183,184) obtained by adaptation-field stuffing, an adaptation field with PCR, one whose content is a one-byte extension, or PCR + private data + extension filling the field up to one stuffing byte x PUSI {1,0} x first payload bytes {00 00 01, 00 00 02, 00 01 01, 01 00 01, 00 00 00, 00 00 81} x 12 header shapes (alignment, PTS_DTS_flags, stuffing) x 3 transport headers (PID 0x100 / 0x1FFF with TEI, priority, scrambling / 0); packet.PESHeader succeeds with exactly the payload iff PUSI and >= 4 payload bytes starting 00 00 01; pes.AlignedPUSI never matches otherwise, and for ids with optional header and a header complete in the packet matches iff data_alignment_indicator, returning the bytes after the header (ids without optional header: whether it matches is not judged, but a reported match must return the bytes after PES_packet_length); non-trivial = each packet",
 				Gen: func(r *engine.Run, emit func(c11PktCase)) {
 					for id := 0; id < 256; id++ {
 						emit(c11PktCase{id, r.Thorough()})
